@@ -99,9 +99,16 @@ class Value(Object):
     def _from_object(cls, source):
         instance = cls()
         instance.value = source
+        if isinstance(source, (bool, int)):
+            # the column is a REAL: remember that the value was a bool / an int
+            instance.class_path = type(source).__name__
         return instance
 
     def __call__(self):
+        if self.class_path == "int":
+            return int(self.value)
+        if self.class_path == "bool":
+            return bool(self.value)
         return self.value
 
 
